@@ -5,6 +5,7 @@
 import Lean.Data.Json
 import SqlairModel.Spec.L4
 import SqlairModel.Spec.L4Cancel
+import SqlairModel.Spec.DriverClauses
 import SqlairModel.Spec.L5
 import Driver.Json
 
@@ -57,14 +58,17 @@ def predJson (p : Rt.Pred) : Json :=
 -- `cancelReported` (C14, the cancellation half of its last sentence) is `Sqlair.Rt.cancelReported`,
 -- `SqlairModel/Spec/L4Cancel.lean`; `cancelReported_of_returns_eq` (Props/L2Rows.lean) is its soundness.
 
-/-- C05, last sentence, as Get and Run show it: a statement is treated as returning rows
-    exactly when it has an output expression - an empty result is ErrNoRows for a
-    statement with outputs (where the reference machine says so) and never for one without -/
-def rowsIffOutputs (c : Case) (p : Pred) (o : Obs) : Bool :=
-  if !(c.op == "run" || c.op == "get") then true else
-  let pm := p.returns.headD ""
-  let im := o.returns.headD ""
-  !((pm == "noRows" && im == "") || (pm == "" && im == "noRows"))
+-- `rowsIffOutputs` (C05, last sentence, as Get and Run show it) is `Sqlair.Rt.rowsIffOutputs`,
+-- `SqlairModel/Spec/DriverClauses.lean`; soundness: `rowsIffOutputs_of_returns_eq`.
+
+/-- C12, "Commit makes all of them take effect together, Rollback none of them": what ends
+    the transaction at the driver (the commit and rollback events, in order) is what the
+    reference machine says the caller's Commit and Rollback calls amount to -/
+def txEndFaithful (c : Case) (p : Pred) (o : Obs) : Bool :=
+  -- (with finishers racing each other the reference machine does not say which one wins)
+  if c.concurrent != 0 then true else
+  let ends (l : List String) := l.filter fun e => e == "commit" || e == "rollback"
+  ends (p.log.map Ev.render) == ends o.events
 
 def handleL4 (j : Json) : Except String Json := do
   let c := parseL4Case (← j.getObjVal? "case")
@@ -78,7 +82,7 @@ def handleL4 (j : Json) : Except String Json := do
      ("diff", Json.str (String.intercalate "; " (ds.map (·.2)))),
      ("c09", Json.bool (holdsC09tx c o)), ("c06", Json.bool o.rowsFaithful),
      ("c05", Json.bool (rowsIffOutputs c p o)),
-     ("c12", Json.bool (holdsC12 c o)),
+     ("c12", Json.bool (holdsC12 c o && txEndFaithful c p o)),
      -- (the result set is closed when the call returns, inside a transaction too)
      ("c13", Json.bool (holdsC13 c o && gn (← j.getObjVal? "obs") "openRowsAtReturn" == 0)),
      ("c14", Json.bool (holdsC14 c o && cancelReported c p o)), ("c15", Json.bool (holdsC15 c o)),
